@@ -8,7 +8,6 @@ NA = {
  "C27": "counting/set/search/histogram: numerical agreement with NumPy",
  "C31": "tensor products and decompositions: numerical linear algebra",
  "C32": "approximate percentiles: numeric merge; monotonicity is a value property",
- "C41": "divisions truthfulness: compares index values with divisions (data-dependent)",
  "C42": "dataframe meta vs computed: needs pandas execution",
  "C45": "division planning: bisect/drift arithmetic over the data",
  "C47": "file round trips: byte-level parsing, pandas and pyarrow behaviour",
